@@ -379,7 +379,7 @@ class GameState():
             controlled_hosts = {IP(x["ip"]) for x in data_dict["controlled_hosts"]},
             known_services = {IP(k):{Service(s["name"], s["type"], s["version"], s["is_local"])
                 for s in services} for k,services in data_dict["known_services"].items()},  
-            known_data = {IP(k):{Data(v["owner"], v["id"]) for v in values} for k,values in data_dict["known_data"].items()},
+            known_data = {IP(k):{Data.from_dict(v) for v in values} for k,values in data_dict["known_data"].items()},
             known_blocks = known_blocks
                 )
         return state
@@ -390,16 +390,7 @@ class GameState():
         Creates GameState object from json representation in string
         """
         json_data = json.loads(json_string)
-        state = GameState(
-            known_networks = {Network(x["ip"], x["mask"]) for x in json_data["known_networks"]},
-            known_hosts = {IP(x["ip"]) for x in json_data["known_hosts"]},
-            controlled_hosts = {IP(x["ip"]) for x in json_data["controlled_hosts"]},
-            known_services = {IP(k):{Service(s["name"], s["type"], s["version"], s["is_local"])
-                for s in services} for k,services in json_data["known_services"].items()},  
-            known_data = {IP(k):{Data(v["owner"], v["id"]) for v in values} for k,values in json_data["known_data"].items()},
-            known_blocks = {IP(target_host):{IP(blocked_host) for blocked_host in blocked_hosts} for target_host, blocked_hosts in json_data["known_blocks"].items()}
-            )
-        return state
+        return cls.from_dict(json_data)
 
 
 # Observation - given to agent after taking an action
